@@ -1,6 +1,6 @@
 (* C15: jitrestrict_with_count, plain safety (the contract used by its callers is in
    Inv/Jitrestrict_with_count_spec.v when present). *)
-From Coq Require Import ZArith QArith String List Bool Lia ZifyBool.
+From Coq Require Import ZArith QArith String List Bool Lia.
 From Verif Require Import Jit.Lang Jit.Interp Jit.Safety Jit.Tactics Gen.Kernels.
 Import ListNotations.
 Open Scope Z_scope.
